@@ -314,4 +314,5 @@ def main():
     json.dump(out, real_stdout)
 
 
-main()
+if __name__ == "__main__":
+    main()
